@@ -233,7 +233,7 @@ func c11ChooseConfig(x *mc.X, e *c11Entry) *c11Config {
 	if !e.noOpts {
 		c.testLvl = x.Choose(4, "testLevel")
 	}
-	c.execLvl = x.Choose(4, "execLevel")
+	c.execLvl = x.Choose(5, "execLevel")
 	return c
 }
 
@@ -297,6 +297,11 @@ func (c *c11Config) execOpts() []z.ExecOption {
 	}
 	if c.execLvl == 1 {
 		o = append(o, z.WithIssueFormatter(func(e *z.ZogIssue, ctx z.Ctx) { e.SetMessage("EXECMSG:" + e.Code) }))
+	}
+	if c.execLvl == 4 {
+		// the natural way to localise one execution: a stock formatter over another table (it leaves a message alone
+		// that is already set — so it must be the first to see the issue)
+		o = append(o, z.WithIssueFormatter(conf.NewDefaultFormatter(es.Map)))
 	}
 	if c.execLvl == 3 {
 		// two steps: delegate to the stock formatter, then override
@@ -363,6 +368,10 @@ func c11CheckIssue(is *z.ZogIssue, wantDtype, wantCode, pkey string, pval any, c
 	case cfg.testLvl >= 2:
 		if is.Message != "TESTFUNC:"+is.Code {
 			return "precedence", fmt.Sprintf("message %q is not from the test's own MessageFunc", is.Message)
+		}
+	case cfg.execLvl == 4:
+		if want := renderTemplate(langTemplate(es.Map, is.Dtype, is.Code), is.Params); want != "" && !strings.Contains(want, "{{") && is.Message != want {
+			return "precedence", fmt.Sprintf("message %q is not the execution formatter's (Spanish table) %q", is.Message, want)
 		}
 	case cfg.execLvl >= 1:
 		if is.Message != "EXECMSG:"+is.Code {
